@@ -186,7 +186,11 @@ Definition icase_spec_ok (c : icase) : bool :=
      end.
 
 (* ---------- one plain-name lookup ---------- *)
-Inductive nscope := NModule | NFunc | NEval | NExec | NFuncEval | NComp | NClass.
+Inductive nscope := NModule | NFunc | NEval | NExec | NFuncEval | NComp | NClass
+  (* inside the string expression of @state_trigger / @event_trigger / @state_active / task.wait_until(state_trigger=) *)
+  | NTrigState | NTrigEvent | NTrigActive | NTrigWait.
+Definition scope_is_trig (s : nscope) : bool :=
+  match s with NTrigState | NTrigEvent | NTrigActive | NTrigWait => true | _ => false end.
 Record ncase := {
   nc_name : string;
   nc_scope : nscope;
@@ -207,6 +211,7 @@ Definition scope_is_func (s : nscope) : bool :=
 Definition nenv_of (c : ncase) : nenv :=
   {| ne_sym := nc_shadow c && negb (scope_is_func (nc_scope c));
      ne_global := nc_shadow c && scope_is_func (nc_scope c);
+     ne_local := negb (scope_is_trig (nc_scope c));
      ne_pybuiltin := nc_pybuiltin c |}.
 Definition ncase_model_ok (c : ncase) : bool :=
   nkind_eqb (name_lookup (nenv_of c) (nc_name c)) (nc_kind c)
@@ -222,7 +227,7 @@ Definition ncase_spec_ok (c : ncase) : bool :=
   (if str_mem (nc_name c) six_names || starts_underscore (nc_name c)
    then negb (nkind_eqb (nc_kind c) KBuiltin) else true)
   && (* print and log.* resolve to the script's logger unless the script rebinds them *)
-  (if nc_shadow c then true
+  (if nc_shadow c || scope_is_trig (nc_scope c) then true   (* trigger expressions only see the trigger variables *)
    else if String.eqb (nc_name c) "print"
         then match nc_kind c with KLogger _ => nc_logger_ok c | _ => false end
         else match assoc (nc_name c) log_names with
